@@ -484,11 +484,22 @@ func (serviceCore *ServiceCore) FilterDatasets(
 	acl := serviceCore.GetAccessControls(subject)
 	result := make([]server.DatasetName, 0)
 
+	// the same rule as for a request to /datasets/<name>: an explicit deny that covers the dataset is never
+	// overridden by an allow, and a dataset that several entries grant is listed once
 	for _, dataset := range datasets {
+		resource := "/datasets/" + dataset.Name
+		granted, denied := false, false
 		for _, ac := range acl {
-			if serviceCore.CheckGranted(ac, "/datasets/"+dataset.Name, "read") {
-				result = append(result, dataset)
+			if ac.Deny {
+				if serviceCore.CheckGranted(&AccessControl{Resource: ac.Resource, Action: ac.Action}, resource, "read") {
+					denied = true
+				}
+			} else if serviceCore.CheckGranted(ac, resource, "read") {
+				granted = true
 			}
+		}
+		if granted && !denied {
+			result = append(result, dataset)
 		}
 	}
 
